@@ -36,7 +36,7 @@ def run(ctx):
                "callers covered: SingleDataInterceptor, MultiDataInterceptor, TxResolver (the other resolvers use the same "
                "messageProcessor.canProcessMessage + StartProcessing/defer EndProcessing shape); "
                "networkMessenger.BroadcastOnChannelBlocking, the REST middleware and userAccountsSyncer are not driven",
-               "a missing EndProcessing is detected by an 8 s watchdog on the gate and by measuring how many tasks the "
+               "a missing EndProcessing is detected by a 20 s watchdog on the gate and by measuring how many tasks the "
                "throttler admits at rest; no other use of wall-clock time")
 
     def write(name, **kw):
